@@ -82,6 +82,7 @@ type probeCounts struct {
 	MutatingOnObj      int64 // mutating operations on one object (history length measure)
 	PoolOutstanding    int64 // pooled objects taken and not put back when the run was over (O5, informational)
 	AliasedArgs        int64 // arguments passed as substrings of library-returned strings
+	GCBetweenOps       int64 // collections forced between two operations of a task (ephemeral arguments)
 	ObjArgs            int64 // calls of discovered API that were handed objects of the version's type
 	ObjArgAliased      int64 // ... where an argument was the receiver itself or another argument
 }
@@ -102,6 +103,7 @@ func (a *probeCounts) add(b *probeCounts) {
 	a.MutatingOnObj += b.MutatingOnObj
 	a.PoolOutstanding += b.PoolOutstanding
 	a.AliasedArgs += b.AliasedArgs
+	a.GCBetweenOps += b.GCBetweenOps
 	a.ObjArgs += b.ObjArgs
 	a.ObjArgAliased += b.ObjArgAliased
 }
@@ -559,6 +561,16 @@ func (x *runCtx) execOp(tc *taskCtx, opi int, op Op) {
 	}
 	if x.plan.AliasArgs {
 		op = x.aliasArgs(tc, op)
+	}
+	if x.plan.EphArgs {
+		for _, g := range x.plan.GCOps {
+			if len(g) == 2 && g[0] == tc.id && g[1] == opi {
+				runtime.GC() // what earlier calls were given is garbage by now
+				tc.probes.GCBetweenOps++
+			}
+		}
+		// the arguments are fresh copies that nobody keeps after the call
+		op.S, op.S2 = strings.Clone(op.S), strings.Clone(op.S2)
 	}
 	var live []unsafe.Pointer
 	var argBefore []string
